@@ -153,6 +153,7 @@ func VerifC01_StaleTakeover() {
 	pos := verif.Len("position", 1, 200)
 	count := 0
 	fired := false
+	looks := 0 // how often A has examined the heartbeat file before the other contender came in
 	var errC error
 	lfs.before = func(op *vOp) error {
 		if fired {
@@ -162,6 +163,10 @@ func VerifC01_StaleTakeover() {
 		if count == pos {
 			fired = true
 			errC = C.tryLock(ctx)
+			return nil
+		}
+		if op.name == "Stat" && len(op.path) > 5 && op.path[len(op.path)-5:] == ".lock" {
+			looks++
 		}
 		return nil
 	}
@@ -170,8 +175,10 @@ func VerifC01_StaleTakeover() {
 	verif.Assume(fired)
 	verif.Observe("A", errA == nil)
 	verif.Observe("C", errC == nil)
+	// the recorded window: the other contender takes the lock over after A's second and last
+	// staleness check (the one inside ReleaseIfStale) and before A has removed the directory
 	verif.AssertKnown("stale_lock_taken_over_by_at_most_one", vHolders(cs) <= 1,
-		"KF-C01-stale-takeover-is-not-atomic", errA == nil && errC == nil)
+		"KF-C01-stale-takeover-is-not-atomic", errA == nil && errC == nil && looks >= 2)
 }
 
 // VerifC01_NoTakeoverWithoutOverride: without override a stale or live lock is never removed by TryLock.
@@ -272,3 +279,4 @@ func VerifC01_LiveLockSurvivesBackendFaults() {
 	_, _, statErr := lfs.LstatIfPossible(A.lock.lockPath())
 	verif.Assert("live_lock_survives", statErr == nil)
 }
+
